@@ -383,7 +383,10 @@ Valid(env, s, d, D, ctx, lim) ==
          [] T = "array"   ->
               IF d.t # "arr" THEN Rej
               ELSE LET l == ArrLimits(s, lim, D)
-                       unchecked == "NamedArrayUnvalidated" \in D /\ ctx # "field"
+                       \* deviation "DeclaredArrayNestedUnchecked": validators hang on struct fields and (since fix 9e8f58a)
+                       \* on declared array types; an array that is neither -- an inner level of a declared array, a map
+                       \* value -- has no limits checked
+                       unchecked == "DeclaredArrayNestedUnchecked" \in D /\ ctx \notin {"field", "decl"}
                        items == IF Has(s, "items") THEN s.items ELSE [type |-> <<>>]
                        sub == IF ctx = "field" THEN "field" ELSE "elem"
                        \* deviation "ArrayItemConstraintsIgnored": validators exist per struct FIELD (and per declared
@@ -479,7 +482,7 @@ EnvKeys(env) == UNION {KeysOf(env[i].s) : i \in DOMAIN env}
 DevNeeds(x) ==
   CASE x = "LengthInBytes" -> {"minLength", "maxLength"}
     [] x = "ZeroMaxIgnored" -> {"maxLength", "maxItems"}
-    [] x \in {"NestedArrayOuterLimits", "NamedArrayUnvalidated"} -> {"minItems", "maxItems"}
+    [] x \in {"NestedArrayOuterLimits", "DeclaredArrayNestedUnchecked"} -> {"minItems", "maxItems"}
     [] x \in {"DeclaredArrayElemUnvalidated", "ArrayItemConstraintsIgnored"} -> {"items"}
     [] x = "RequiredUndeclaredIgnored" -> {"required"}
     [] x \in {"AddlIntTruncates", "AddlValuesTypedOnly", "AddlKeyEqualsFieldNameDropped", "AddlEmptyKeyDropped",
